@@ -11,8 +11,8 @@ import (
 
 func init() {
 	register(&PropDef{
-		ID:       "C14",
-		Patterns: []string{"./std/protowire", "./std/php"},
+		ID:          "C14",
+		Patterns:    []string{"./std/protowire", "./std/php"},
 		Explanation: "Faithfulness of the encoders is value-level and not decided. Totality of the two hand-written byte-level decoders (protobuf wire parser, unserialize) has structural parts that are: (IDX) every index and slice of the input in std/protowire and in unserialize's parser is within bounds on every path — for protowire this includes that each Consume* length is tested (n <= 0 ⇒ error) before it is used as a slice bound; (DEPTH) every recursion cycle of the protowire parser passes the MaxDepth rejection and increases depth; (ALL) a decoder that does not return the unread remainder reports success only when no input is left; (ALLOC) an allocation sized by a decoded number is dominated by a bound tied to the remaining input. JSON decoding is delegated to encoding/json and trusted.",
 		Assumptions: []string{
 			"protowire.Consume* return a byte count <= len(input) or a negative error code (library contract)",
